@@ -137,6 +137,8 @@ class SeqSysCase:
         try:
             for data, rm, rc, gap in self.txs:
                 w.cfg.req_mode, w.cfg.req_closure = rm, rc
+                # data None = a metadata-only put request (messages to user, no file) in the middle of the sequence
+                w.cfg.metadata_only, w.cfg.msgs = (True, [0]) if data is None else (False, None)
                 s0, d0 = len(w.src.events), len(w.dst.events)
                 start_transfer(w, data)
                 r = Runner(w, [], max_rounds=250, extra_sm=self.extra_sm)
@@ -161,9 +163,9 @@ def c02_seq_cases(tier, rng):
         cfg = campaign.rand_cfg(rng, req_mode=None, req_closure=None)
         txs = []
         for _ in range(rng.choice([2, 2, 3, 4])):
-            size = rng.choice(campaign.SIZES)
-            txs.append((bytes(rng.getrandbits(8) for _ in range(size)), rng.choice([None, 0, 1, 1]), rng.choice([None, False, True, True]),
-                        rng.choice(gaps)))
+            size = rng.choice(campaign.SIZES + [0, 0])
+            data = None if rng.random() < 0.2 else bytes(rng.getrandbits(8) for _ in range(size))
+            txs.append((data, rng.choice([None, 0, 1, 1]), rng.choice([None, False, True, True]), rng.choice(gaps)))
         yield SeqSysCase(cfg, txs, extra_sm=rng.choice([0, 0, 1]))
 
 
